@@ -685,6 +685,15 @@ class ExprMixin:
       if isinstance(cont, PyTuple):
         raise Unsupported('slice of python tuple')
       if isinstance(cont.sort, S.Seq):
+        if not self.pure_mode and not self.binders and getattr(self.theory, 'exact_slices', False):
+          # when the path condition already implies 0 <= lo <= hi <= len, Python's clamping is the identity:
+          # use the bounds as they are (the clamping ite-terms make later quantified reasoning much harder)
+          n = cont.sort.len(cont.t)
+          lo_ = lo if lo is not None else z3.IntVal(0)
+          hi_ = hi if hi is not None else n
+          from engine.core import quick_check
+          if quick_check(self.base_facts() + self.pc, z3.Not(z3.And(0 <= lo_, lo_ <= hi_, hi_ <= n))) == z3.unsat:
+            return V(cont.sort, cont.sort.slice_exact(cont.t, lo_, hi_))
         return V(cont.sort, cont.sort.slice(cont.t, lo, hi))
       raise Unsupported('slice of %s' % cont.sort)
     idx = self.eval(e.slice)
